@@ -169,3 +169,32 @@ Definition run_c18_mut (kind before path op key val omit after : sexp) : outcome
       end
   | _, _, _, _, _ => out_bad "c18.mut"
   end.
+
+(* two Sets on different fields through one handle *)
+Definition run_c18_mut2 (kind before path k1 v1 o1 k2 v2 o2 after : sexp) : outcome :=
+  match dec_value before, path, k1, dec_value v1, dec_bool o1 with
+  | Some before, SList (SAtom "path" :: steps), SAtom k1, Some v1, Some o1 =>
+      match map_opt dec_mstep steps, k2, dec_value v2, dec_bool o2 with
+      | Some p, SAtom k2, Some v2, Some o2 =>
+          match after with
+          | SAtom "panic" => mkOut ["prop C18 Set/Delete through the Map interface panicked"] 1 1 ["mut2"]
+          | _ =>
+              match dec_value after with
+              | Some after =>
+                  let setf k v o (m : list (string * value)) :=
+                    if o && empty_for_omit v then vmap_delete k m else vmap_set k v m in
+                  let expected :=
+                    match update_at p (setf k1 v1 o1) before with
+                    | Some x => update_at p (setf k2 v2 o2) x
+                    | None => None
+                    end in
+                  mkOut (chk (match expected with Some e => value_deep_eqb e after | None => false end)
+                             "prop C18 two Sets through one handle change exactly those two entries (the second does not undo the first)")
+                        2 1 ["mut2"]
+              | None => out_bad "c18.mut2 after"
+              end
+          end
+      | _, _, _, _ => out_bad "c18.mut2 args"
+      end
+  | _, _, _, _, _ => out_bad "c18.mut2"
+  end.
